@@ -2,7 +2,7 @@
 PENDING = "check not built yet in this round (planned in DESIGN.md); not claimed until it runs clean on the unchanged tree"
 
 
-na("C06", "quantifies over every byte prefix of a runtime tape and over archive/tar's behaviour on arbitrary bytes plus a termination argument for the resynchronisation loop; no sound dataflow/typestate rule in reach decides any clause of it (the only structural ingredient, earlier records are never touched, is claimed under C05)")
+# C06 was planned as not applicable; four narrow structural clauses turned out to be decidable (DESIGN.md §7.2)
 
 claim("C15",
       "Decides for all paths of the source that no exported method of the filesystem or file handle can reach a tape- or index-changing call while the instance is read-only (may-not-reach over the static call graph with per-function must-dataflow for the guards), that the flags those guards rely on can only be set on a writable instance, and that the read-only branch returns a permission error. Does not decide equality of read results with a writable twin.",
@@ -76,3 +76,8 @@ claim("C11",
       "Decides a static Eraser-style lockset for the handle and tape-manager state (every access shares a held mutex with every write, over all call paths from the exported filesystem/file methods and the goroutines they start, context-sensitive on the held set with returns-held summaries) and acyclicity of the acquired-while-held graph including the wait-for edge of the pipe-feeding goroutine (two known cycles: the documented reader-holds-the-drive deadlock). Linearizability and the index store's cached root are not decided. Also: every index/drive access of an exported method lies inside its ioLock section (frozen exceptions), the tracked mutexes are never taken in shared/try mode, and goroutines start only at the known sites.",
       "context-sensitive static lockset + lock-order graph (go/cfg must-dataflow per function, call-graph exploration keyed by held set) with a pipe wait-for edge",
       "DESIGN.md §3 C11")
+
+claim("C06",
+      "Narrow: decides four structural clauses of crash prefix-recoverability on the indexer's source - the resynchronisation loop leaves only by end-of-file, a parsed header or a drive error and re-positions by rounding the drive offset UP to whole blocks; a member's header is applied to the index before its content is skipped; skip and seek failures are returned; nothing but an explicit overwrite truncates or rewinds the drive. The behaviour on arbitrary torn tapes (archive/tar on garbage, equality with the last complete state) is NOT decided.",
+      "AST/CFG shape rules on the resynchronisation loop + success-edge ordering (header before content) + error-propagation rule + overwrite provenance",
+      "DESIGN.md §3 C06 and §7.2")
